@@ -45,6 +45,40 @@ impl Gate {
     }
 }
 
+/// every frame a from-the-start follower of all contexts was handed, in delivery order
+static TAP: Mutex<Vec<Value>> = Mutex::new(Vec::new());
+static TAP_ON: std::sync::atomic::AtomicBool = std::sync::atomic::AtomicBool::new(false);
+/// handler start-up order: (point, handler id hex) for handler.subscribed / handler.announce and
+/// for the broadcast of every `<name>.registered` frame
+static SYNCLOG: Mutex<Vec<(String, String)>> = Mutex::new(Vec::new());
+/// SIGKILL this process when sync point `.0` arrives with a frame whose topic ends with `.1`
+static KILL_AT: Mutex<Option<(String, String)>> = Mutex::new(None);
+
+fn on_serve_point(p: &xs::verif::Point) {
+    let Some(f) = p.frame else { return };
+    if let Some((point, suffix)) = KILL_AT.lock().unwrap().as_ref() {
+        if p.name == point && f.topic.ends_with(suffix.as_str()) {
+            unsafe {
+                libc::kill(libc::getpid(), libc::SIGKILL);
+            }
+            std::thread::sleep(std::time::Duration::from_secs(5));
+        }
+    }
+    if p.name.starts_with("handler.") {
+        SYNCLOG.lock().unwrap().push((p.name.to_string(), id_hex(&f.id)));
+    } else if p.name == "append.broadcast" && f.topic.ends_with(".registered") {
+        let hid = f
+            .meta
+            .as_ref()
+            .and_then(|m| m.get("handler_id"))
+            .and_then(|v| v.as_str())
+            .and_then(|s| s.parse::<scru128::Scru128Id>().ok())
+            .map(|i| id_hex(&i))
+            .unwrap_or_default();
+        SYNCLOG.lock().unwrap().push(("registered.broadcast".to_string(), hid));
+    }
+}
+
 pub fn run() {
     let rt = tokio::runtime::Builder::new_multi_thread()
         .worker_threads(4)
@@ -64,6 +98,8 @@ async fn main_loop() {
         xs::verif::install(Box::new(move |p| {
             if p.name.starts_with("gc.") {
                 gate.on_gc_point(p.name);
+            } else {
+                on_serve_point(p);
             }
         }));
     }
@@ -221,6 +257,29 @@ async fn exec(store: &Store, gate: &Arc<Gate>, kind: &str, op: &Value) -> Value 
             // what `xs serve` starts (main::serve), minus the trace logger: the three serve
             // loops, each on its own engine clone
             let engine = xs::nu::Engine::new().unwrap();
+            if op["tap"].as_bool().unwrap_or(true) {
+                let st = store.clone();
+                let mut rx = st.read(ReadOptions::builder().follow(FollowOption::On).build()).await;
+                TAP_ON.store(true, std::sync::atomic::Ordering::SeqCst);
+                tokio::spawn(async move {
+                    while let Some(f) = rx.recv().await {
+                        let mut v = frame_json(&f);
+                        if let Some(h) = &f.hash {
+                            match st.cas_read(h).await {
+                                Ok(b) => {
+                                    v["content"] = match String::from_utf8(b) {
+                                        Ok(s) if s.len() < 4096 => json!(s),
+                                        _ => json!(null),
+                                    };
+                                    v["content_present"] = json!(true);
+                                }
+                                Err(_) => v["content_present"] = json!(false),
+                            }
+                        }
+                        TAP.lock().unwrap().push(v);
+                    }
+                });
+            }
             {
                 let (st, en) = (store.clone(), engine.clone());
                 tokio::spawn(async move {
@@ -264,11 +323,18 @@ async fn exec(store: &Store, gate: &Arc<Gate>, kind: &str, op: &Value) -> Value 
             // wait until the stream has been quiet for `ms` (at most `max_ms`)
             let quiet = std::time::Duration::from_millis(op["ms"].as_u64().unwrap_or(200));
             let hard = std::time::Instant::now() + std::time::Duration::from_millis(op["max_ms"].as_u64().unwrap_or(5000));
-            let mut last = store.read_sync(None, None, None).count();
+            let count = || {
+                if TAP_ON.load(std::sync::atomic::Ordering::SeqCst) {
+                    TAP.lock().unwrap().len()
+                } else {
+                    store.read_sync(None, None, None).count()
+                }
+            };
+            let mut last = count();
             let mut since = std::time::Instant::now();
             loop {
                 tokio::time::sleep(std::time::Duration::from_millis(20)).await;
-                let n = store.read_sync(None, None, None).count();
+                let n = count();
                 if n != last {
                     last = n;
                     since = std::time::Instant::now();
@@ -278,6 +344,17 @@ async fn exec(store: &Store, gate: &Arc<Gate>, kind: &str, op: &Value) -> Value 
                 }
             }
             json!({"ok": last})
+        }
+        "tap" => {
+            let log: Vec<Value> = SYNCLOG.lock().unwrap().iter().map(|(a, b)| json!([a, b])).collect();
+            json!({"ok": {"frames": TAP.lock().unwrap().clone(), "sync": log}})
+        }
+        "arm_kill" => {
+            *KILL_AT.lock().unwrap() = Some((
+                op["point"].as_str().unwrap_or("append.enter").to_string(),
+                op["suffix"].as_str().unwrap_or("").to_string(),
+            ));
+            json!({"ok": null})
         }
         "stream" => {
             // every stored frame, with its content when it is small text
